@@ -239,3 +239,40 @@ for nl in ('\n', '\r\n'):
     targets(['a' + nl, 'b'], ['-p', '2200'], [('a', 2200), ('b', 2200)])
 print(json.dumps({'cases': cases, 'failures': failures}))
 '''
+
+
+NATIVE_RESOLVE = r'''
+import json, socket, itertools
+from ssh_audit.auditconf import AuditConf
+from ssh_audit.outputbuffer import OutputBuffer
+from ssh_audit.ssh_socket import SSH_Socket
+cases, failures = 0, []
+V4 = [(socket.AF_INET, socket.SOCK_STREAM, 6, '', ('192.0.2.%d' % i, 22)) for i in (1, 2)]
+V6 = [(socket.AF_INET6, socket.SOCK_STREAM, 6, '', ('2001:db8::%d' % i, 22, 0, 0)) for i in (1, 2)]
+DGRAM = [(socket.AF_INET, socket.SOCK_DGRAM, 17, '', ('192.0.2.9', 22))]
+answers = [V4 + V6, V6 + V4, [V6[0], V4[0], V6[1], V4[1]], [V4[0], V6[0], DGRAM[0], V4[1], V6[1]], V4, V6, []]
+real = socket.getaddrinfo
+seen = {}
+def fake(host, port, family=0, type=0, proto=0, flags=0):
+    seen['family'] = family
+    return [a for a in seen['answer'] if family in (0, a[0])]
+socket.getaddrinfo = fake
+try:
+    for pref in ([], [4], [6], [4, 6], [6, 4]):
+        for ans in answers:
+            cases += 1
+            seen['answer'] = ans
+            s = SSH_Socket(OutputBuffer(), 'host.example', 22, pref)
+            got = list(s._resolve())
+            want_family = socket.AF_INET if pref == [4] else socket.AF_INET6 if pref == [6] else socket.AF_UNSPEC
+            stream = [a for a in ans if a[1] == socket.SOCK_STREAM and want_family in (0, a[0])]
+            if len(pref) == 2:
+                first = socket.AF_INET if pref[0] == 4 else socket.AF_INET6
+                stream = [a for a in stream if a[0] == first] + [a for a in stream if a[0] != first]   # stable by family
+            want = [(a[0], a[4]) for a in stream]
+            if (seen.get('family') != want_family or got != want) and len(failures) < 8:
+                failures.append({'input': {'ip_version_preference': pref, 'resolver_answer': [(a[0].name, a[4][0]) for a in ans]}, 'got': repr([(f.name, a[0]) for f, a in got]), 'want': repr([(f.name, a[0]) for f, a in want])})
+finally:
+    socket.getaddrinfo = real
+print(json.dumps({'cases': cases, 'failures': failures}))
+'''
